@@ -212,6 +212,16 @@ func Exec(st Step, pool []*modeling.Mesh) (res modeling.Mesh, hasRes bool, ok bo
 		res = meshops.SmoothNormals(src(0))
 	case "Laplacian":
 		res = meshops.LaplacianSmooth(src(0), project.AttrName(st.i("id")), st.i("iters"), float64(st.i("lam2"))/2)
+	case "Prim":
+		// a primitive / generator result enters the pool (frame and well-formedness are judged; the
+		// generators share package-level tables, which no later call may disturb)
+		res = RunGenerator(GenCase{Gen: st.i("gen"), P: st.vec("p")})
+	case "SetAttrWindow":
+		// the caller hands the library a WINDOW data[:n] of a longer array that other meshes also
+		// see through longer windows: nothing the library does later may write beyond the window
+		var data [][]int
+		st.any("data", &data)
+		res = setAttrWindow(src(0), st.i("ar"), project.AttrName(st.i("id")), data, st.i("n"), string(st.Args["data"]))
 	case "Misc":
 		// operations judged on frame (C01) and well-formedness (C02) only: no reference value in the model
 		res = misc(src(0), st.i("kind"), st.i("k"))
@@ -392,4 +402,51 @@ func misc(m modeling.Mesh, kind, k int) modeling.Mesh {
 		return m.Transform(meshops.CenterAttribute3DTransformer{}, meshops.ScaleAttribute3DTransformer{Amount: vector3.New(2., 1., float64(k))})
 	}
 	panic(harnessPanic{"unknown misc kind"})
+}
+
+var windowBacking = map[string]any{}
+
+func setAttrWindow(m modeling.Mesh, ar int, name string, data [][]int, n int, key string) modeling.Mesh {
+	key = fmt.Sprintf("%d|%s", ar, key)
+	switch ar {
+	case 1:
+		b, ok := windowBacking[key].([]float64)
+		if !ok {
+			b = make([]float64, len(data))
+			for i, v := range data {
+				b[i] = project.Unscaled(v[0])
+			}
+			windowBacking[key] = b
+		}
+		return m.SetFloat1Attribute(name, b[:n])
+	case 2:
+		b, ok := windowBacking[key].([]vector2.Float64)
+		if !ok {
+			b = make([]vector2.Float64, len(data))
+			for i, v := range data {
+				b[i] = vector2.New(project.Unscaled(v[0]), project.Unscaled(v[1]))
+			}
+			windowBacking[key] = b
+		}
+		return m.SetFloat2Attribute(name, b[:n])
+	case 3:
+		b, ok := windowBacking[key].([]vector3.Float64)
+		if !ok {
+			b = make([]vector3.Float64, len(data))
+			for i, v := range data {
+				b[i] = project.V3(v)
+			}
+			windowBacking[key] = b
+		}
+		return m.SetFloat3Attribute(name, b[:n])
+	}
+	b, ok := windowBacking[key].([]vector4.Float64)
+	if !ok {
+		b = make([]vector4.Float64, len(data))
+		for i, v := range data {
+			b[i] = vector4.New(project.Unscaled(v[0]), project.Unscaled(v[1]), project.Unscaled(v[2]), project.Unscaled(v[3]))
+		}
+		windowBacking[key] = b
+	}
+	return m.SetFloat4Attribute(name, b[:n])
 }
